@@ -64,6 +64,20 @@ def discharge(ob, timeout_s=10, both=False, dump_failed=True):
     s.add(z3.Not(ob.goal))
     r = str(s.check())
     backend = 'z3 ' + z3.get_version_string()
+    if r == 'unknown':
+        # quantifier instantiation is heuristic: retry with other seeds before giving the query to cvc5
+        for seed in (7, 42, 1234):
+            s2 = z3.Solver()
+            s2.set('timeout', int(timeout_s * 1000))
+            s2.set('random_seed', seed)
+            s2.set('smt.random_seed', seed)
+            s2.add(*ob.assumptions)
+            s2.add(z3.Not(ob.goal))
+            r2 = str(s2.check())
+            if r2 != 'unknown':
+                r, s = r2, s2
+                backend += ' (seed %d)' % seed
+                break
     model = None
     size = sum(len(a.sexpr()) for a in ob.assumptions[-3:]) if False else len(ob.assumptions)
     smt2 = None
